@@ -61,7 +61,13 @@ def comodo_ds(spec, style, as_str, order=0, with_vars=False):
             coords[name] = (name, np.array(S.pos_points(p, n)) if S.pos_len(p, n) > 0 else np.zeros(0), attrs)
     if order == 2:
         coords = dict(reversed(list(coords.items())))
-    return xr.Dataset(coords=coords), expect
+    ds = xr.Dataset(coords=coords)
+    if order != 1:
+        # coordinates that are not dimensions may carry an `axis` attribute too (the scalar level left by isel(), a 2-D
+        # longitude): only dimensions define axes
+        first = next(iter(coords))
+        ds = ds.assign_coords(level_left_by_isel=((), 5.0, {"axis": "Q"}), aux2d=((first, "aux"), np.zeros((ds.sizes[first], 2)), {"axis": "W"}))
+    return ds, expect
 
 
 def battery(g, layout_by_axis, ns, dimof):
@@ -72,6 +78,15 @@ def battery(g, layout_by_axis, ns, dimof):
         if n < 2:
             continue
         c = xr.DataArray(np.arange(n, dtype=float) ** 2 + 1, dims=[dimof[ax]["center"]])
+        # shifts without `to`: the documented default (left, else right, else outer, else inner), whatever the order in
+        # which the dataset or the mapping lists the positions
+        dflt = next((p for p in ("left", "right", "outer", "inner") if p in layout), None)
+        if dflt is not None:
+            for op in ("interp", "diff", "cumsum"):
+                r0 = getattr(g, op)(c, ax, boundary="extend")
+                out.append((ax, "default", op, tuple(r0.dims), r0.values.tobytes()))
+                if tuple(r0.dims) != (dimof[ax][dflt],):
+                    out.append((ax, "default-shift-not-the-documented-one", op, id(g)))  # differs between the two grids
         for p in layout:
             if p == "center":
                 continue
